@@ -35,12 +35,16 @@ def r04(ctx):
     for (b, si, e) in aggs:
         cut_h = [x for c in sets for x in a.cfg.out_edges(c)]
         leak_h = a.cfg.reach_after([b], cut_edges=cut_h) & rets
-        ctx.check(bool(sets) and not leak_h, 'R04a', NEXT, 'set_hash(0)', a.loc(b, si), 'every path from the Chunk construction to return passes self.hash.set_hash(0)',
+        if leak_h and sets and a.cfg.must_pass(b, via_blocks=sets):
+            leak_h = set()      # the reset already happened on every path to the construction (no loop in next)
+        ctx.check(bool(sets) and not leak_h, 'R04a', NEXT, 'set_hash(0)', a.loc(b, si), 'every path through the Chunk construction passes self.hash.set_hash(0) before returning',
                   'a chunk can be emitted without resetting the rolling hash: the next boundary then depends on bytes before the cut')
         cut_z = [x for (zb, _) in zero for x in a.cfg.out_edges(zb)]
         zin = any(zb == b and zs > si for (zb, zs) in zero)
         leak_z = set() if zin else (a.cfg.reach_after([b], cut_edges=cut_z) & rets)
-        ctx.check(bool(zero) and not leak_z, 'R04a', NEXT, 'cur_chunk_len=0', a.loc(b, si), 'every path from the Chunk construction to return passes cur_chunk_len = 0',
+        if leak_z and zero and (a.cfg.must_pass(b, via_blocks=[zb for (zb, _) in zero if zb != b]) or any(zb == b and zs < si for (zb, zs) in zero)):
+            leak_z = set()
+        ctx.check(bool(zero) and not leak_z, 'R04a', NEXT, 'cur_chunk_len=0', a.loc(b, si), 'every path through the Chunk construction passes cur_chunk_len = 0 before returning',
                   'a chunk can be emitted without resetting the open-chunk length')
         f = dict(e[3])
         h, d = f.get('hash'), f.get('data')
@@ -59,21 +63,26 @@ def r04(ctx):
     ok = len(ex) == 1
     if ok:
         sl = a.arg(ex[0], 1)
-        ok = sl[0] == 'index' and sl[1] == ('param', 2, 'data') and sl[2][0] == 'agg' and dict(sl[2][3]).get('start') == ('const', 0, 'usize') and dict(sl[2][3]).get('end', ('x',))[0] == 'local'
+        ok = sl[0] == 'index' and (sl[1][0] == 'param' and sl[1][1] == 2) and sl[2][0] == 'agg' and dict(sl[2][3]).get('start') == ('const', 0, 'usize') and dict(sl[2][3]).get('end', ('x',))[0] == 'local'
         cl = dict(sl[2][3]).get('end')
-        rs = [e for (_, _, _, e) in a.ret_sites()]
-        # returned tuple's second component is that same local
+        # every value `next` can return is a pair whose second component is that same cursor
         tups = []
-        for b in sorted(a.cfg.reach0):
-            for s in a.blocks[b]['s']:
-                r = s.get('r')
-                if r and r['k'] == 'agg' and r['ak'] == 'tuple' and len(r['ops']) == 2:
-                    te = a.flow.rvalue(r, 0)
-                    # only the (Option<Chunk>, consumed) result pairs (debug assertions build other tuples)
-                    c0 = te[3][0][1]
-                    if (c0[0] == 'agg' and 'Option' in c0[2]) or (c0[0] == 'local' and 'Option<deduplication::chunking::Chunk>' in a.flow.lty(c0[1])):
-                        tups.append(te)
-        ok = ok and len(tups) >= 2 and all(t[3][1][1] == cl for t in tups)
+        for (rb, rsi, rk, re_) in a.ret_sites():
+            for (_, _, se) in a.flow.sources(re_, (rb, rsi)):
+                tups.append(se)
+        ok = ok and len(tups) >= 1 and all(t[0] == 'agg' and t[1] == 'tuple' and len(t[3]) == 2 for t in tups)
+        if ok:
+            # the reported count is that cursor — or a literal 0 on a path that appends nothing at all
+            exb = ex[0]
+            for t in tups:
+                if t[3][1][1] == cl:
+                    continue
+                for (sb, ssi, se) in a.flow.sources(t[3][1][1], None, None, lambda z: z == cl):
+                    if se == cl:
+                        continue
+                    if se == ('const', 0, 'usize') and sb is not None and exb not in a.cfg.reach([sb]) and sb not in a.cfg.reach([exb]):
+                        continue
+                    ok = False
     ctx.check(ok, 'R04b', NEXT, 'consumed=appended', a.loc(ex[0]) if ex else '-', 'exactly data[0..consume_len] is appended to the chunk buffer and consume_len is what next reports as consumed')
     # who builds chunks
     builders = set()
@@ -108,10 +117,20 @@ def r04c(ctx):
     from . import paths
     from .core import edges_where
     a = an(ctx.F.body(NEXT))
-    is_cur = lambda z: z[0] == 'field' and z[2] == 'cur_chunk_len'
+    # the open-chunk length: the field, or a local that carries it through the scan (initialised from the field and
+    # written back to it)
+    cur_locals = set()
+    for l_, ds_ in a.flow.defs.items():
+        inits = [d_ for d_ in ds_ if d_[0] == 'assign' and a.flow.rvalue(d_[3], 0) == ('field', ('param', 1, a.flow.lname(1)), 'cur_chunk_len')]
+        if inits and len(ds_) >= 2:
+            back = [1 for (b_, si_, st_) in a.stores_to_field('cur_chunk_len') if flow.mentions(a.flow.rvalue(st_['r'], 0), lambda z: z[0] == 'local' and z[1] == l_)]
+            if back:
+                cur_locals.add(l_)
+    is_cur = lambda z: (z[0] == 'field' and z[2] == 'cur_chunk_len') or (z[0] == 'local' and z[1] in cur_locals)
+    cur_keys = {('self', 'cur_chunk_len')} | {(a.flow.lname(l_),) for l_ in cur_locals}
     is_min = lambda z: z[0] == 'field' and z[2] == 'minimum_chunk'
     is_max = lambda z: z[0] == 'field' and z[2] == 'maximum_chunk'
-    is_data_len = lambda z: z[0] in ('len', 'call') and flow.mentions(z, lambda y: y == ('param', 2, 'data'))
+    is_data_len = lambda z: z[0] in ('len', 'call') and flow.mentions(z, lambda y: y[0] == 'param' and y[1] == 2)
     # (i) the skip: a cur_chunk_len update guarded by `cur_chunk_len (+ window) < threshold` with threshold a configuration
     # field of the chunker (minimum_chunk, or a precomputed skip length derived from it)
     thresholds = []
@@ -128,7 +147,7 @@ def r04c(ctx):
     for b in sorted(a.cfg.reach0):
         for si, st in enumerate(a.blocks[b]['s']):
             u = paths.additive_update(a, st)
-            if u and u[0] == ('self', 'cur_chunk_len') and guard and a.cfg.must_pass(b, via_edges=guard):
+            if u and u[0] in cur_keys and guard and a.cfg.must_pass(b, via_edges=guard):
                 ups.append((b, si, u[2]))
     if ctx.check(len(ups) == 1, 'R04c', NEXT, 'skip site', '-', 'one minimum-size skip (cur_chunk_len += ..) under a cur_chunk_len < threshold guard (threshold field: %s)' % sorted(set(thresholds))):
         b, si, e = ups[0]
@@ -142,7 +161,7 @@ def r04c(ctx):
         ctx.check(ok, 'R04c', NEXT, 'skip bound', a.loc(b, si), 'the skip is min(threshold - cur_chunk_len - .., input still unconsumed)',
                   'the minimum-size skip does not subtract the bytes already in the open chunk (or is not limited by the unconsumed input): boundaries then depend on how the stream is split across calls')
         # the same amount advances the input cursor
-        cu = [u2 for bb in sorted(a.cfg.reach0) for s2 in a.blocks[bb]['s'] for u2 in [paths.additive_update(a, s2)] if u2 and len(u2[0]) == 1 and flow.eqv(u2[2], e)]
+        cu = [u2 for bb in sorted(a.cfg.reach0) for s2 in a.blocks[bb]['s'] for u2 in [paths.additive_update(a, s2)] if u2 and len(u2[0]) == 1 and u2[0] not in cur_keys and flow.eqv(u2[2], e)]
         ctx.check(len(cu) == 1, 'R04c', NEXT, 'skip cursor', a.loc(b, si), 'the input cursor advances by the same amount as cur_chunk_len')
     # (ii) search window
     nm = a.calls('gearhash::Hasher::next_match')
@@ -150,7 +169,7 @@ def r04c(ctx):
         w = a.arg(nm[0], 1)
         rg = dict(w[2][3]) if w[0] == 'index' and w[2][0] == 'agg' else {}
         st, en = rg.get('start'), rg.get('end')
-        ok = w[0] == 'index' and w[1] == ('param', 2, 'data') and st is not None and st[0] == 'local' and en is not None and flow.mentions(en, is_data_len) and _subtracts(en, is_cur, is_max)
+        ok = w[0] == 'index' and (w[1][0] == 'param' and w[1][1] == 2) and st is not None and st[0] == 'local' and en is not None and flow.mentions(en, is_data_len) and _subtracts(en, is_cur, is_max)
         ctx.check(ok, 'R04c', NEXT, 'window', a.loc(nm[0]), 'the search window is data[consumed .. min(len, consumed + maximum_chunk - cur_chunk_len)]',
                   'the boundary search window is not limited relative to the open chunk (maximum_chunk - cur_chunk_len)')
         ctx.check(a.arg(nm[0], 2)[0] == 'field' and a.arg(nm[0], 2)[2] == 'mask' and flow.show(a.arg(nm[0], 0)) == 'self.hash', 'R04c', NEXT, 'mask', a.loc(nm[0]), 'the search uses the persistent rolling hash and the configured mask')
